@@ -85,6 +85,19 @@ CHECKS = {
              "independent layer-by-layer oracle and symmetry pairs on the real code.",
         ref="§5 C14", technique="Lean 4 proof (decide tables, induction over layers, real analysis atoms) + Float-model correspondence + recomputation oracle",
         note=NOTE_COMMON + "PARTIAL: overhang_sens_is_backprop_partial (loop = reverse passes; per-support increment = seed x true partial) lacks the scatter/gather re-indexing to J^T; cross-axis swap with mapped direction is oracle-only; libm vs numpy pow/log/sqrt to tolerance."),
+    "C09": dict(
+        text="Lean theorems (3-D statements, 2-D = nelz 0; arbitrary sizes, kernels, pad widths): closed forms of np.pad symmetric/edge/wrap; _process_padding is the per-axis extension; FilterConv output = sum w[a,b,c] x~[i+px-a, ...] "
+             "with x~ the field extended by the selected rule (+overrides); constants and range preserved for non-negative sum-one kernels without constant padding (both filters); every radius kernel is non-negative, "
+             "sums to one and is mirror-symmetric; volume preserved for all-symmetric padding + mirror-symmetric kernel for ANY pad width (extSym_covers_twice); DensityFilter = cone average over all elements; adjoint theorems for both filters. "
+             "Exact (dyadic) and tolerance correspondence of padded index map, outputs and sensitivities; all 5^4 / 4^6 mode combinations in the thorough tier; brute-force oracles on the real code.",
+        ref="§5 C09", technique="Lean 4 proof (integer index arithmetic with symbolic modulus, sum re-indexing) + exact correspondence + brute-force oracle; one OPEN known finding",
+        note=NOTE_COMMON + "OPEN FINDING filterconv-wide-pad-mixed-modes: for pad > n with mixed modes on one axis the code pads the already padded array; the padded-convolution theorem carries the hypothesis axisClean that excludes exactly this class, and Lean proves the negation at the witness."),
+    "C15": dict(
+        text="Lean refinement proof: one simulation theorem per public DyadCarrier operation (construction incl. blocks/fac/zero-drop/dtype, +, -, unary -, +=, -=, scalar and matrix products from both sides, T, conj, real, imag, "
+             "diagonal, getitem forms, setitem zeroing, contract in all batch/slice combinations, contract_multi, copy, todense) against dense = sum_k u_k v_k^T with result shape and representation invariant, and by induction over ANY finite program "
+             "of these instructions the carrier registers refine the dense interpreter; operands other than in-place targets unchanged. Exact correspondence of whole programs (integer data) incl. per-vector dtypes and exception classes; numpy dense mirror oracle with aliasing checks.",
+        ref="§5 C15", technique="Lean 4 proof (refinement / simulation per operation, induction over programs) + exact program correspondence + dense mirror oracle; one OPEN known finding",
+        note=NOTE_COMMON + "OPEN FINDING dyad-dtype-lost-without-stored-complex-vector: the complex-flag claims carry the hypothesis Tight (a complex carrier stores a complex vector); Lean proves the negation of the unrestricted claim at the witness. 'Results share no storage' is checked by the harness only."),
 }
 
 NOT_APPLICABLE = {
